@@ -1177,7 +1177,10 @@ fn run_linked(s: &mut Session, r: &mut Rng, emit_twin: bool) {
 			s.fail(scn.describe(), format!("callback {k}: audio thread panicked: {}", last_panic()), None);
 			return;
 		};
-		if let (true, Some(prev)) = (k > kf, prev_db) {
+		// one chunk of slack after the nominal end of the link's tween: its duration is a whole number of
+		// nanoseconds (Duration), which can exceed f frames of accumulated dt by a rounding, so the tween may end
+		// one chunk later than kf; the chunk after THAT is the first whose previous value is the mapped distance
+		if let (true, Some(prev)) = (k > kf + 1, prev_db) {
 			let n = frames.len();
 			let at_rest = prev.0.to_bits() == cur.0.to_bits();
 			for (i, fr) in frames.iter().enumerate() {
